@@ -1,6 +1,6 @@
 /-
 C13 — executable model of `cameleon/src/u3v/register_map.rs` (state after the `fix:`
-commits 87c44b2, da8583f, a9ca270, 4612888):
+commits 87c44b2, da8583f, a9ca270, 4612888, 2f80436):
 
 * the `DeviceControl` it talks to: a byte memory over the 64-bit address space with an
   access log; the device rejects every access when `broken` and any access running past
@@ -219,14 +219,23 @@ def capBit (st pred : String) : Option Nat :=
 def fieldOf (fn var : String) : Option Field :=
   (Gen.RegMap.bitFields.find? (fun x => x.1 == fn && x.2.1 == var)).map fun x => ⟨x.2.2.1, x.2.2.2⟩
 
+/-- byte width of the numeric codec a `ParseBytes` newtype wraps
+(`impl ParseBytes for T { Ok(Self(uN::parse_bytes(bytes)?)) }`), from the generated table -/
+def newtypeWidth (t : String) : Option Nat :=
+  (Gen.RegMap.newtypes.lookup t).bind fun n =>
+    if n == "u64" then some 8 else if n == "u32" then some 4 else none
+
 def resolveDec (name : String) : Ty → Option Dec
   | .u32 => some .u32
   | .u64 => some .u64
   | .string => some .string
   | .duration => some .duration
   | .busSpeed => some (.enum32 Gen.RegMap.busSpeed)
-  | .deviceConfiguration => some .deviceConfiguration
-  | .fileInfo => some .fileInfo
+  -- `Dec.deviceConfiguration` / `Dec.fileInfo` parse 8 / 4 bytes: only valid while the
+  -- source's newtype wraps u64 / u32
+  | .deviceConfiguration =>
+    if newtypeWidth "DeviceConfiguration" == some 8 then some .deviceConfiguration else none
+  | .fileInfo => if newtypeWidth "GenICamFileInfo" == some 4 then some .fileInfo else none
   | .ver1616 => do
     let ma ← fieldOf name "major"
     let mi ← fieldOf name "minor"
@@ -256,7 +265,9 @@ def rowOf (name : String) : Option RRow :=
 /-- Resolved constants the structural accessors refer to. -/
 structure Layout where
   devCap : Nat × Nat          -- abrm::DEVICE_CAPABILITY
+  devCapWidth : Nat           -- width of the numeric codec under `DeviceCapability`
   u3vCap : Nat × Nat          -- sbrm::U3VCP_CAPABILITY_REGISTER
+  u3vCapWidth : Nat           -- width of the numeric codec under `U3VCapablitiy`
   sbrmAddress : RRow          -- `Abrm::sbrm_address`
   manifestTableAddress : RRow -- `Abrm::manifest_table_address`
   sirmAddress : RRow          -- `Sbrm::sirm_address`
@@ -264,16 +275,18 @@ structure Layout where
 
 def layout : Option Layout := do
   let a ← regOf "abrm" "DEVICE_CAPABILITY"
+  let aw ← newtypeWidth "DeviceCapability"
   let b ← regOf "sbrm" "U3VCP_CAPABILITY_REGISTER"
+  let bw ← newtypeWidth "U3VCapablitiy"
   let c ← rowOf "Abrm.sbrm_address"
   let d ← rowOf "Abrm.manifest_table_address"
   let e ← rowOf "Sbrm.sirm_address"
-  pure ⟨a, b, c, d, e⟩
+  pure ⟨a, aw, b, bw, c, d, e⟩
 
 /-- `Abrm::new` -/
 def abrmNew (L : Layout) (d : Dev) : R Val × Dev :=
   match d.read L.devCap.1 L.devCap.2 with
-  | (.ok bs, d') => ((parseNum 8 bs).map .abrm, d')
+  | (.ok bs, d') => ((parseNum L.devCapWidth bs).map .abrm, d')
   | (.err e, d') => (.err e, d')
   | (.panic, d') => (.panic, d')
 
@@ -282,7 +295,7 @@ def sbrmNew (L : Layout) (base : Nat) (d : Dev) : R Val × Dev :=
   match registerAddress base L.u3vCap.1 with
   | .ok addr =>
     match d.read addr L.u3vCap.2 with
-    | (.ok bs, d') => ((parseNum 8 bs).map (.sbrm base), d')
+    | (.ok bs, d') => ((parseNum L.u3vCapWidth bs).map (.sbrm base), d')
     | (.err e, d') => (.err e, d')
     | (.panic, d') => (.panic, d')
   | .err e => (.err e, d)
@@ -313,8 +326,10 @@ def sbrmSirm (L : Layout) (base cap : Nat) (d : Dev) : R Val × Dev :=
   | (.err e, d') => (.err e, d')
   | (.panic, d') => (.panic, d')
 
-/-- `ManifestTable::entries`: the u64 entry count at offset 0, entries of 64 bytes from
-offset 8; refuses tables that do not fit into the address space. -/
+/-- `ManifestTable::entries`: the u64 entry count `n` at offset 0 (through the struct's
+`read_register`, i.e. `register_address(base, 0)`), then in u128 arithmetic
+`table_end = base + 8 + n * 64`; `InvalidDevice` iff `table_end > 2^64`.  The iterator
+yields entry `i < n` at `base + 8 + i * 64` (cannot overflow below `table_end`). -/
 def tableEntries (base : Nat) (d : Dev) : R Val × Dev :=
   match registerAddress base 0 with
   | .ok addr =>
@@ -322,12 +337,8 @@ def tableEntries (base : Nat) (d : Dev) : R Val × Dev :=
     | (.ok bs, d') =>
       match parseNum 8 bs with
       | .ok n =>
-        match registerAddress base 8 with
-        | .ok first =>
-          if n * 64 < 2 ^ 64 ∧ first + n * 64 < 2 ^ 64 then (.ok (.entries n first), d')
-          else (.err .invalidDevice, d')
-        | .err e => (.err e, d')
-        | .panic => (.panic, d')
+        if base + 8 + n * 64 > 2 ^ 64 then (.err .invalidDevice, d')
+        else (.ok (.entries n (base + 8)), d')
       | .err e => (.err e, d')
       | .panic => (.panic, d')
     | (.err e, d') => (.err e, d')
